@@ -62,6 +62,14 @@ class Ctx:
     rules_run: Dict[str, int] = field(default_factory=dict)
     notes: List[str] = field(default_factory=list)
     max_samples: int = 60
+    undecided: List[str] = field(default_factory=list)  # parts that could not be decided (construct outside the subset ...)
+
+    def soft(self, part) -> None:
+        """Run one part of a property's rules; an AnalysisError there does not hide the findings of the other parts."""
+        try:
+            part()
+        except AnalysisError as err:
+            self.undecided.append(f"{type(err).__name__}: {err}")
 
     # -- obligations -------------------------------------------------------------------------
     def ob(
